@@ -33,8 +33,9 @@ func (w *world) ret(r tensor.Tensor, err error) string {
 		return "err"
 	}
 	d, ok := r.(*tensor.Dense)
-	if !ok {
-		return "err"
+	if !ok || d == nil {
+		// no error and no result: not a refusal
+		return "nilresult"
 	}
 	return w.newOrSame(d)
 }
